@@ -118,6 +118,20 @@ def templates(tier="quick"):
         T.append(scenario("c14/missingdeps_depfile/" + name, "c14", [v], ops=ops, init=[b], depth=d, tags=["spelling", name, "depfile", "tools"],
                           twin_variants=[unspelled_twin(v)]))
 
+    # S2c depfiles in the `gcc -MP` style (every header once more as a target without dependencies): the dependency
+    # spelled oddly, the extra target plainly -- one file, named twice
+    for name, sp in sorted(SPELLINGS.items()):
+        if name in ("trailing_dot", "trailing_slash"):
+            continue
+        for kind in ("depfile", "gcc"):
+            o = Stmt("obj/x.o", ex=["x.c"], hidden=["inc/g.h", "h"], depfile=(kind == "depfile"), deps="gcc" if kind == "gcc" else "")
+            o.dep_spell = {"inc/g.h": sp("inc/g.h"), "h": sp("h")}
+            o.dep_mp = True
+            v = Variant("v0", [o, Stmt("exe", ex=["obj/x.o"])])
+            ops, b = _ops(v, ["exe"])
+            T.append(scenario("c14/depfile_MP_style_%s/%s" % (kind, name), "c14", [v], ops=ops, init=[b], depth=d,
+                              tags=["spelling", name, "depfile"], twin_variants=[unspelled_twin(v)], files={"inc/g.h": "g\n"}))
+
     # S8b a `default` line with several targets, the later ones spelled oddly
     for name, sp in sorted(SPELLINGS.items()):
         if name in ("trailing_dot", "trailing_slash"):
